@@ -1120,31 +1120,41 @@ func (c *dtChannel) gsDataRequestRcvd(requestID graphsync.RequestID, hookActions
 
 func (c *dtChannel) pause(ctx context.Context) error {
 	c.lk.Lock()
-	defer c.lk.Unlock()
 
 	// Check if the channel was already cancelled
 	if c.requestID == nil {
+		c.lk.Unlock()
 		log.Debugf("%s: channel was cancelled so not pausing channel", c.channelID)
 		return nil
 	}
 
 	// If the requester cancelled, bail out
 	if c.requesterCancelled {
+		c.lk.Unlock()
 		log.Debugf("%s: requester has cancelled so not pausing response", c.channelID)
 		return nil
 	}
 
+	requestID := *c.requestID
+
+	// Note: the lock is released before calling into graphsync. Pause is
+	// served by graphsync's request / response manager loop, and that loop
+	// also runs our hooks, which take the channel lock: holding the lock
+	// while waiting for the loop deadlocks when a message for this channel
+	// is already queued in it.
+	c.lk.Unlock()
+
 	// Pause the response
 	log.Debugf("%s: pausing response", c.channelID)
-	return c.t.gs.Pause(ctx, *c.requestID)
+	return c.t.gs.Pause(ctx, requestID)
 }
 
 func (c *dtChannel) resume(ctx context.Context, msg datatransfer.Message) error {
 	c.lk.Lock()
-	defer c.lk.Unlock()
 
 	// Check if the channel was already cancelled
 	if c.requestID == nil {
+		c.lk.Unlock()
 		log.Debugf("%s: channel was cancelled so not resuming channel", c.channelID)
 		return nil
 	}
@@ -1154,6 +1164,7 @@ func (c *dtChannel) resume(ctx context.Context, msg datatransfer.Message) error 
 		var err error
 		extensions, err = extension.ToExtensionData(msg, c.t.supportedExtensions)
 		if err != nil {
+			c.lk.Unlock()
 			return err
 		}
 	}
@@ -1164,6 +1175,7 @@ func (c *dtChannel) resume(ctx context.Context, msg datatransfer.Message) error 
 		// remote peer. We're not sending any message now, so instead queue up
 		// the message to be sent next time the peer makes a request to us.
 		c.pendingExtensions = append(c.pendingExtensions, extensions...)
+		c.lk.Unlock()
 
 		log.Debugf("%s: requester has cancelled so not unpausing response", c.channelID)
 		return nil
@@ -1172,8 +1184,13 @@ func (c *dtChannel) resume(ctx context.Context, msg datatransfer.Message) error 
 	// Record that the transfer has started
 	c.xferStarted = true
 
+	requestID := *c.requestID
+
+	// Note: as in pause, the lock is released before calling into graphsync
+	c.lk.Unlock()
+
 	log.Debugf("%s: unpausing response", c.channelID)
-	return c.t.gs.Unpause(ctx, *c.requestID, extensions...)
+	return c.t.gs.Unpause(ctx, requestID, extensions...)
 }
 
 func (c *dtChannel) close(ctx context.Context) error {
